@@ -29,7 +29,7 @@ CHECKS = {
  "C18": dict(
    category="exploration",
    technique="deterministic simulation of 2..16 caller threads under a seeded baton scheduler (real threads, one runs at a time, every hand-off drawn from the seed and recorded), self-reference oracle; plus a Miri many-seeds slice (second seeded scheduler, basic-block preemption, data-race detector) in both tiers",
-   text="Caller threads run seeded programs over the whole search API on one shared Regex and on clones; they can lose the CPU at every VM instruction, backtrack, delegate call and API/iterator seam, and the seeded scheduler decides every hand-off (uniform, PCT-like and operation-boundary policies, swarm-varied). A third of the scenarios also exercise the regex life cycle across threads (a thread drops a regex and compiles a sibling into a mailbox, others search with whatever is there). Every call must return exactly what the same call returns alone on a fresh Regex; no panic difference, no deadlock. The schedule is the replay file. Send/Sync/Clone are asserted at compile time. A small 3-thread program over the shipped (hook-free) library is additionally interpreted by Miri over a window of scheduler seeds (16 quick / 3x96 thorough); a failing Miri seed is the replay.",
+   text="Caller threads run seeded programs over the whole search API on one shared Regex and on clones; they can lose the CPU at every VM instruction, backtrack, delegate call and API/iterator seam, and the seeded scheduler decides every hand-off (uniform, PCT-like and operation-boundary policies, swarm-varied). A third of the scenarios also exercise the regex life cycle across threads (a thread drops a regex and compiles a sibling into a mailbox, others search with whatever is there). Every call must return exactly what the same call returns alone on a fresh Regex; no panic difference, no deadlock. The schedule is the replay file. Send/Sync/Clone are asserted at compile time. A small 3-thread program over the shipped (hook-free) library is additionally interpreted by Miri over a window of scheduler seeds (2x16 quick / 5x96 thorough); a failing Miri seed is the replay.",
    note="Interleavings are explored at yield-point granularity; data races below that granularity exist only for unsafe code and are left to the Miri slice, which is small because Miri is slow (about 4 s per execution). regex-automata runs real code in both.",
    design="4.4"),
  "C20": dict(
